@@ -532,3 +532,249 @@ Proof.
     split; [reflexivity|]. right. now exists pos.
   - congruence.
 Qed.
+
+(* ---------- mirrored units: the local copy is behind the local record ---------- *)
+
+Definition cstep_m (fin : N -> bool) (w : world) (e : env_ev) : bool :=
+  match e with
+  | EAppend b => if fin (w_state w) then rlen (w_output w ++ b) <=? w_size w else true
+  | ESetStatus st sz =>
+    if fin st
+    then (rlen (w_output w) <=? sz) && (has_file w || (sz =? 0)) &&
+         (if fin (w_state w) then sz =? w_size w else true)
+    else negb (fin (w_state w))
+  | _ => true
+  end.
+
+Lemma contract_m_cons fin w e r :
+  contract_m_from fin w (e :: r) = cstep_m fin w e && contract_m_from fin (env_step w e) r.
+Proof. reflexivity. Qed.
+
+Lemma contract_m_app fin t1 : forall w t2,
+  contract_m_from fin w (t1 ++ t2) =
+  contract_m_from fin w t1 && contract_m_from fin (fold_left env_step t1 w) t2.
+Proof.
+  induction t1 as [|e r IH]; intros w t2; [reflexivity|].
+  rewrite <- app_comm_cons, !contract_m_cons, IH. simpl. now rewrite andb_assoc.
+Qed.
+
+(* a finishing record: the copy is not longer than the recorded size, and exists if there is one *)
+Definition winv_m (fin : N -> bool) (w : world) : Prop :=
+  fin (w_state w) = true -> rlen (w_output w) <= w_size w /\ (w_file w = None -> w_size w = 0).
+
+Lemma winv_m_env fin w e : cstep_m fin w e = true -> winv_m fin w -> winv_m fin (env_step w e).
+Proof.
+  unfold winv_m. intros Hc Hw. destruct e; simpl in *.
+  - destruct (w_file w) eqn:E; simpl.
+    + intro H. destruct (Hw H) as [H1 _]. split; [exact H1|]. intro Hn. rewrite E in Hn. discriminate.
+    + intro H. destruct (Hw H) as [H1 _]. split; [|discriminate].
+      unfold w_output in *. simpl. now rewrite E in H1.
+  - intro H. rewrite H in Hc. apply N.leb_le in Hc. split; [|discriminate].
+    unfold w_output at 1. simpl. exact Hc.
+  - intro H. rewrite H in Hc.
+    apply andb_true_iff in Hc as [Hc _]. apply andb_true_iff in Hc as [H1 H2].
+    apply N.leb_le in H1. split; [unfold w_output in *; simpl; exact H1|].
+    intro Hn. unfold has_file in H2. rewrite Hn in H2. simpl in H2. now apply N.eqb_eq in H2.
+  - exact Hw.
+Qed.
+
+(* once finished: everything from the start offset on has been delivered, up to the recorded size *)
+Definition dinv_m (fin : N -> bool) (s : N) (w : world) (ph : rphase) (em : bytes) : Prop :=
+  ph = RDone -> fin (w_state w) = true /\ em = target s w /\ w_size w <= s + rlen em.
+
+Lemma skipn_app_within (s : nat) (l b : bytes) :
+  (length (l ++ b) <= s + length (skipn s l))%nat -> skipn s (l ++ b) = skipn s l.
+Proof.
+  rewrite app_length, skipn_length. intro H.
+  destruct (le_lt_dec (length l + length b) s) as [Hs|Hs].
+  - rewrite !skipn_all2; [reflexivity|lia|rewrite app_length; lia].
+  - assert (Hb : length b = 0%nat) by lia.
+    destruct b; [now rewrite app_nil_r|simpl in Hb; lia].
+Qed.
+
+Lemma dinv_m_env fin s w ph em e :
+  cstep_m fin w e = true -> dinv_m fin s w ph em -> dinv_m fin s (env_step w e) ph em.
+Proof.
+  unfold dinv_m. intros Hc Hd Hph. destruct (Hd Hph) as [Hf [Hem Hsz]]. destruct e; simpl in *.
+  - destruct (w_file w) eqn:E; simpl; [now repeat split|]. repeat split; auto.
+    rewrite Hem. unfold target, w_output. simpl. now rewrite E.
+  - rewrite Hf in Hc. apply N.leb_le in Hc. repeat split; auto.
+    rewrite Hem. unfold target.
+    change (w_output (mkWorld (Some (w_output w ++ b)) (w_state w) (w_size w))) with (w_output w ++ b).
+    symmetry. apply skipn_app_within. rewrite Hem in Hsz. clear Hd. unfold target, rlen in *. lia.
+  - rewrite Hf in Hc. destruct (fin state) eqn:E; [|discriminate].
+    apply andb_true_iff in Hc as [_ Hc]. apply N.eqb_eq in Hc. subst size.
+    repeat split; auto.
+  - now repeat split.
+Qed.
+
+Lemma dinv_m_step fin s w ph em n :
+  winv_m fin w -> rinv s w ph em -> dinv_m fin s w ph em ->
+  dinv_m fin s w (fst (reader_step fin s w ph n)) (em ++ snd (reader_step fin s w ph n)).
+Proof.
+  intros Hw [a [Ha [Hem Hp]]] Hd. unfold dinv_m. destruct ph as [|pos|pos|]; simpl in *.
+  - destruct (w_file w) eqn:Ef; simpl; [discriminate|].
+    destruct (fin (w_state w)) eqn:Ef2; simpl; [|discriminate].
+    intros _. destruct (Hw Ef2) as [_ H0]. specialize (H0 Ef).
+    split; [reflexivity|]. subst a. rewrite app_nil_r, Hem.
+    unfold target, w_output. rewrite Ef, skipn_nil. split; [reflexivity|]. simpl. lia.
+  - destruct (slice (w_output w) pos (chunk n)); simpl; discriminate.
+  - destruct (fin (w_state w)) eqn:Ef; simpl; [|discriminate].
+    destruct (w_size w <=? pos) eqn:El; simpl; [|discriminate].
+    intros _. apply N.leb_le in El. destruct (Hw Ef) as [Hlen _]. destruct Hp as [Hle Hpa].
+    assert (Hall : firstn a (target s w) = target s w).
+    { apply firstn_ge_all. unfold target in *. rewrite skipn_length in *. unfold rlen in Hlen. lia. }
+    split; [reflexivity|]. rewrite app_nil_r, Hem, Hall. split; [reflexivity|].
+    unfold rlen. lia.
+  - intros _. rewrite app_nil_r. now apply Hd.
+Qed.
+
+Lemma run_from_exact_m fin s tr : forall w ph em,
+  contract_m_from fin w tr = true -> winv_m fin w -> rinv s w ph em -> dinv_m fin s w ph em ->
+  let '(cs, phf, wf) := run_from fin s w ph tr in
+  winv_m fin wf /\ rinv s wf phf (em ++ concat cs) /\ dinv_m fin s wf phf (em ++ concat cs).
+Proof.
+  induction tr as [|e r IH]; intros w ph em Hc Hw Hr Hd.
+  - simpl. rewrite app_nil_r. auto.
+  - rewrite contract_m_cons in Hc. apply andb_true_iff in Hc as [Hc1 Hc2].
+    assert (Henv : is_poll e = false ->
+                   run_from fin s w ph (e :: r) = run_from fin s (env_step w e) ph r).
+    { destruct e; simpl; intros; try reflexivity; discriminate. }
+    destruct (is_poll e) eqn:Ep.
+    + destruct e; try discriminate. simpl.
+      pose proof (rinv_step fin s w ph em n Hr) as H1.
+      pose proof (dinv_m_step fin s w ph em n Hw Hr Hd) as H2.
+      destruct (reader_step fin s w ph n) as [ph' c]. simpl in H1, H2, Hc2.
+      specialize (IH w ph' (em ++ c) Hc2 Hw H1 H2).
+      destruct (run_from fin s w ph' r) as [[cs phf] wf].
+      rewrite concat_emit, app_assoc. exact IH.
+    + rewrite (Henv eq_refl). apply IH; auto.
+      * now apply winv_m_env.
+      * now apply rinv_env.
+      * now apply dinv_m_env.
+Qed.
+
+Lemma winv_m0 fin : fin ST_PENDING = false -> winv_m fin world0.
+Proof. unfold winv_m. simpl. intros H H'. rewrite H in H'. discriminate. Qed.
+
+Lemma dinv_m0 fin s : dinv_m fin s world0 RWait [].
+Proof. unfold dinv_m. discriminate. Qed.
+
+(* a session on a mirrored unit: if it has ended, the unit is done, exactly output[start..] has
+   been delivered, and that reaches the RECORDED size — however far behind the copy was when the
+   final record arrived; and the copy, which cannot be longer than the recorded size, is complete
+   whenever the start offset lies below that size *)
+Theorem results_exact_mirrored_thm : forall start tr,
+  contract_m tr = true ->
+  let '(cs, fin) := results_run start tr in
+  is_prefix (concat cs) (skipn (N.to_nat start) (output_of tr)) = true /\
+  (fin = true ->
+   concat cs = skipn (N.to_nat start) (output_of tr) /\
+   results_done (w_state (world_after tr)) = true /\
+   w_size (world_after tr) <= start + rlen (concat cs) /\
+   (start < w_size (world_after tr) -> rlen (output_of tr) = w_size (world_after tr))).
+Proof.
+  intros s tr Hc. unfold results_run, results_run_with, output_of, world_after.
+  pose proof (run_from_exact_m results_done s tr world0 RWait [] Hc
+                (winv_m0 results_done eq_refl) (rinv0 s) (dinv_m0 results_done s)) as H.
+  pose proof (run_from_world results_done s tr world0 RWait) as Hw.
+  destruct (run_from results_done s world0 RWait tr) as [[cs phf] wf]. simpl in *.
+  subst wf. destruct H as [Hwi [Hr Hd]]. split; [exact (rinv_prefix _ _ _ _ Hr)|].
+  intro Hf. destruct phf; try discriminate. destruct (Hd eq_refl) as [H1 [H2 H3]].
+  repeat split; auto.
+  intro Hlt. destruct (Hwi H1) as [Hle _]. rewrite H2 in H3. unfold target, rlen in *.
+  rewrite skipn_length in H3. lia.
+Qed.
+
+(* ... and stays so: whatever the mirror does afterwards, the finished stream is still exactly
+   output[start..] *)
+Theorem results_final_mirrored_thm : forall start tr tr',
+  contract_m (tr ++ tr') = true -> snd (results_run start tr) = true ->
+  skipn (N.to_nat start) (output_of (tr ++ tr')) = skipn (N.to_nat start) (output_of tr) /\
+  snd (results_run start (tr ++ tr')) = true /\
+  fst (results_run start (tr ++ tr')) = fst (results_run start tr).
+Proof.
+  intros s tr tr' Hc Hf.
+  pose proof (results_exact_mirrored_thm s (tr ++ tr') Hc) as He2.
+  assert (Hc1 : contract_m tr = true).
+  { unfold contract_m in *. rewrite contract_m_app in Hc. now apply andb_true_iff in Hc as [Hc _]. }
+  pose proof (results_exact_mirrored_thm s tr Hc1) as He1.
+  unfold results_run, results_run_with in *. rewrite run_from_app in *.
+  destruct (run_from results_done s world0 RWait tr) as [[cs phf] wf]. simpl in *.
+  destruct phf; try discriminate.
+  assert (Hstay : forall t w, run_from results_done s w RDone t = ([], RDone, fold_left env_step t w)).
+  { induction t as [|e r IH]; intros w; [reflexivity|]. destruct e; simpl; try apply IH.
+    now rewrite IH. }
+  rewrite Hstay in *. simpl in *. rewrite app_nil_r in *.
+  destruct He1 as [_ He1]. destruct (He1 eq_refl) as [E1 _].
+  destruct He2 as [_ He2]. destruct (He2 eq_refl) as [E2 _].
+  repeat split; auto. now rewrite <- E1, <- E2.
+Qed.
+
+(* once the record is final and the copy has reached the recorded size, the stream ends *)
+Theorem results_terminates_mirrored_thm : forall start tr polls,
+  results_done (w_state (world_after tr)) = true ->
+  w_size (world_after tr) = rlen (output_of tr) ->
+  (length (output_of tr) + 4 <= length polls)%nat ->
+  snd (results_run start (tr ++ map EPoll polls)) = true.
+Proof.
+  intros s tr polls Hf Hsz Hl. unfold results_run, results_run_with.
+  rewrite run_from_app.
+  pose proof (run_from_world results_done s tr world0 RWait) as Hw.
+  destruct (run_from results_done s world0 RWait tr) as [[cs phf] wf]. simpl in *. subst wf.
+  unfold output_of, world_after in *.
+  assert (Hwi : winv results_done (fold_left env_step tr world0)) by (intros _; exact Hsz).
+  assert (Hm : (measure (fold_left env_step tr world0) phf <= length polls)%nat).
+  { destruct phf; simpl; try lia. destruct (rlen _ <=? pos); lia. }
+  pose proof (polls_finish results_done s _ polls phf Hwi Hf Hm) as Hp.
+  destruct (run_from results_done s (fold_left env_step tr world0) phf (map EPoll polls))
+    as [[c2 ph2] w2]. simpl in Hp. now subst ph2.
+Qed.
+
+(* ---------- the reader that takes the size from the file ---------- *)
+
+(* on a local unit (producer's contract) it is the real reader ... *)
+Lemma filesize_same_step fin s w ph n :
+  winv fin w -> reader_step fin s (filesize_view w) ph n = reader_step fin s w ph n.
+Proof.
+  intro Hw. destruct ph as [|pos|pos|]; try reflexivity. simpl.
+  destruct (fin (w_state w)) eqn:Ef; [|reflexivity]. now rewrite (Hw Ef).
+Qed.
+
+Lemma run_from_filesize_same fin s tr : forall w ph,
+  contract_from fin w tr = true -> winv fin w ->
+  run_from_filesize fin s w ph tr = run_from fin s w ph tr.
+Proof.
+  induction tr as [|e r IH]; intros w ph Hc Hw; [reflexivity|].
+  rewrite contract_cons in Hc. apply andb_true_iff in Hc as [Hc1 Hc2].
+  destruct e.
+  1-3: cbn [run_from_filesize run_from]; apply IH; [exact Hc2|now apply winv_env].
+  cbn [run_from_filesize run_from]. rewrite filesize_same_step by exact Hw.
+  destruct (reader_step fin s w ph n) as [ph' c]. simpl in Hc2. now rewrite IH.
+Qed.
+
+Theorem results_filesize_same_local_thm : forall start tr,
+  contract tr = true -> results_run_filesize start tr = results_run start tr.
+Proof.
+  intros s tr Hc. unfold results_run_filesize, results_run, results_run_with.
+  now rewrite (run_from_filesize_same results_done s tr world0 RWait Hc (winv0 results_done eq_refl)).
+Qed.
+
+(* ... on a mirrored unit it ends as soon as the record is final: 2 of 5 bytes *)
+Definition early_end_witness : list env_ev :=
+  [ECreate; ESetStatus ST_RUNNING 5; EAppend [1; 2]; ESetStatus ST_SUCCEEDED 5;
+   EPoll 65536; EPoll 65536; EPoll 65536; EPoll 65536;
+   EAppend [3; 4; 5];
+   EPoll 65536; EPoll 65536; EPoll 65536; EPoll 65536].
+
+Theorem results_filesize_refuted_thm :
+  contract_m early_end_witness = true /\
+  w_size (world_after early_end_witness) = 5 /\ output_of early_end_witness = [1; 2; 3; 4; 5] /\
+  results_run_filesize 0 early_end_witness = ([[1; 2]], true) /\
+  results_run 0 early_end_witness = ([[1; 2]; [3; 4; 5]], true) /\
+  ~ (forall start tr, contract_m tr = true -> snd (results_run_filesize start tr) = true ->
+       concat (fst (results_run_filesize start tr)) = skipn (N.to_nat start) (output_of tr)).
+Proof.
+  repeat split; try reflexivity.
+  intro H. specialize (H 0 early_end_witness eq_refl eq_refl). vm_compute in H. discriminate H.
+Qed.
